@@ -37,10 +37,12 @@ Section Trusted.
   Definition coin_id (c : coin) : bytes := H (co_parent c ++ co_ph c ++ coin_amount_bytes (co_amount c)).
 
   (* ---------------- additions_and_removals ---------------- *)
-  (* the hint of a CREATE_COIN as this helper computes it: ((hint . _) . _) with hint an atom of <= 32 bytes *)
+  (* the hint of a CREATE_COIN as this helper computes it: ((hint . _) . _) with hint an atom of 1..32 bytes
+     (since fix 0a21e864 an empty atom is no hint: `hint_len > 0 && hint_len <= 32`) *)
   Definition ar_hint (t : sexp) : option bytes :=
     match t with
-    | Pair (Pair (Atom h) _) _ => if Nat.leb (length h) 32 then Some h else None
+    | Pair (Pair (Atom h) _) _ =>
+        if negb (Nat.eqb (length h) 0) && Nat.leb (length h) 32 then Some h else None
     | _ => None
     end.
 
@@ -230,8 +232,7 @@ Section Trusted.
     amount <- parse_amount f2 InvalidCoinAmount ;;
     r3 <- rest r2 ;;
     solution <- first r3 ;;
-    r4 <- rest r3 ;;
-    _ <- check_nil r4 ;;
+    _extra <- rest r3 ;;                 (* since fix 1aa0e3f6: spend-level extras after the solution are ignored *)
     Ok (parent, amount, puzzle, solution).
 
   Fixpoint lookup_loop (iter : sexp) (find : coin) : res (sexp * sexp) :=
